@@ -444,7 +444,11 @@ func init() {
 		// round trip through the wire
 		back, rem, errs := data.ReadMapping(d)
 		if len(errs) != 0 || len(rem) != 0 {
-			fails = append(fails, fail("C11", "roundtrip", "Data() of a map does not parse back cleanly: errs=%v rem=%d map=%s", mapErrTagsOf(errs), len(rem), trunc(a[0], 80)))
+			sig := "roundtrip"
+			if len(gm) > 1000 {
+				sig = "roundtrip-over-1000-pairs" // MAX_MAPPING_PAIRS: the parser refuses what the constructor accepts
+			}
+			fails = append(fails, fail("C11", sig, "Data() of a map with %d pairs does not parse back cleanly: errs=%v rem=%d map=%s", len(gm), mapErrTagsOf(errs), len(rem), trunc(a[0], 80)))
 		} else {
 			gm2, gerr := back.ToGoMap()
 			same := gerr == nil && len(gm2) == len(gm)
